@@ -23,6 +23,7 @@ use std::collections::HashMap;
 
 pub struct Ctx {
     pub repo: String,
+    pub root: String,
     pub files: HashMap<String, (String, syn::File)>,
 }
 
@@ -59,7 +60,8 @@ fn main() {
     let template = arg(&args, "--template").expect("--template");
     let out = arg(&args, "--out").expect("--out");
     let report = arg(&args, "--report").expect("--report");
-    let mut ctx = Ctx { repo, files: HashMap::new() };
+    let root = arg(&args, "--root").unwrap_or_else(|| ".".into());
+    let mut ctx = Ctx { repo, root, files: HashMap::new() };
     let text = std::fs::read_to_string(&template).expect("read template");
     let res = template::process(&mut ctx, &text);
     let (ok, gen, rep) = match res {
